@@ -1,4 +1,4 @@
-From Tetl Require Import Lib.Base C06a.Instances C01.Model C01.Spec C05.Model C05.Spec C05.ModelMore C05.SpecMore C05.ModelString C05.ModelMode C05.SpecMode.
+From Tetl Require Import Lib.Base C06a.Instances C01.Model C01.Spec C05.Model C05.Spec C05.ModelMore C05.SpecMore C05.ModelString C05.ModelMode C05.SpecMode C05.ModelEval C05.SpecEval.
 Require Extraction.
 Require Import ExtrOcamlBasic.
 Extraction Language OCaml.
@@ -19,4 +19,5 @@ Extraction "C05_model.ml" wire_anchor
   str_replace str_replace_ptr str_replace_cstr str_replace5
   contract_macros precondition_active precondition_safe_active mode_precondition mode_precondition_safe mode_array_index mode_day_ctor
   doc_precondition_active doc_precondition_safe_active doc_checked
-  vec_insert_range vec_assign_range str_append_range pre_vec_insert_range pre_vec_assign_range pre_str_append_range.
+  vec_insert_range vec_assign_range str_append_range pre_vec_insert_range pre_vec_assign_range pre_str_append_range
+  guarded_call site_active call_in_build constant_expression_accepted doc_call.
